@@ -25,11 +25,12 @@ def load_prefix(uri: str, ns_map: dict) -> str | None:
 def generate_prefix(uri: str, ns_map: dict) -> str:
     """Generate a prefix for the given uri and append it in the prefix-URI map."""
     namespace = Namespace.get_enum(uri)
-    if namespace:
-        prefix = namespace.prefix
-    else:
-        number = len(ns_map)
+    prefix = namespace.prefix if namespace else None
+    number = len(ns_map)
+    # Never rebind a prefix that is already in use for another namespace
+    while prefix is None or prefix in ns_map:
         prefix = f"ns{number}"
+        number += 1
 
     ns_map[prefix] = uri
 
